@@ -116,6 +116,29 @@ fn parse_err(tok: &str) -> Option<RequestAttemptError> {
         ["broken"] => Some(RequestAttemptError::BrokenConnectionError(
             BrokenConnectionErrorKind::TooManyOrphanedStreamIds(5).into(),
         )),
+        // every reason a connection can break for (the policies must not look at the reason: a request
+        // already written may have been applied whatever broke the connection afterwards)
+        ["broken", kind] => {
+            let io = |k: std::io::ErrorKind| std::io::Error::new(k, "verif");
+            let kind: BrokenConnectionErrorKind = match *kind {
+                "write" => BrokenConnectionErrorKind::WriteError(io(std::io::ErrorKind::BrokenPipe)),
+                "writereset" => BrokenConnectionErrorKind::WriteError(io(std::io::ErrorKind::ConnectionReset)),
+                "header" => BrokenConnectionErrorKind::FrameHeaderParseError(
+                    scylla::errors::FrameHeaderParseError::HeaderIoError(io(std::io::ErrorKind::UnexpectedEof)),
+                ),
+                "fromclient" => BrokenConnectionErrorKind::FrameHeaderParseError(
+                    scylla::errors::FrameHeaderParseError::FrameFromClient,
+                ),
+                "event" => BrokenConnectionErrorKind::CqlEventHandlingError(scylla::errors::CqlEventHandlingError::SendError),
+                "stream" => BrokenConnectionErrorKind::UnexpectedStreamId(7),
+                "katimeout" => BrokenConnectionErrorKind::KeepaliveTimeout(std::net::IpAddr::from([127, 0, 0, 1])),
+                "kareq" => BrokenConnectionErrorKind::KeepaliveRequestError(std::sync::Arc::new(HarnessErr)),
+                "orphans" => BrokenConnectionErrorKind::TooManyOrphanedStreamIds(9),
+                "channel" => BrokenConnectionErrorKind::ChannelError,
+                _ => return None,
+            };
+            Some(RequestAttemptError::BrokenConnectionError(kind.into()))
+        }
         ["bodyext"] => Some(RequestAttemptError::BodyExtensionsParseError(
             FrameBodyExtensionsParseError::NoCompressionNegotiated,
         )),
@@ -199,7 +222,26 @@ fn err_name(e: &RequestAttemptError, full: bool) -> String {
         RequestAttemptError::SerializationError(_) => "ser".into(),
         RequestAttemptError::CqlRequestSerialization(_) => "reqser".into(),
         RequestAttemptError::UnableToAllocStreamId => "alloc".into(),
-        RequestAttemptError::BrokenConnectionError(_) => "broken".into(),
+        RequestAttemptError::BrokenConnectionError(b) => {
+            // `full`: the canonical case token, which names the reason the connection broke for
+            if !full {
+                return "broken".into();
+            }
+            match b.downcast_ref::<BrokenConnectionErrorKind>() {
+                Some(BrokenConnectionErrorKind::WriteError(io)) if io.kind() == std::io::ErrorKind::BrokenPipe => "broken.write".into(),
+                Some(BrokenConnectionErrorKind::WriteError(_)) => "broken.writereset".into(),
+                Some(BrokenConnectionErrorKind::FrameHeaderParseError(scylla::errors::FrameHeaderParseError::FrameFromClient)) => "broken.fromclient".into(),
+                Some(BrokenConnectionErrorKind::FrameHeaderParseError(_)) => "broken.header".into(),
+                Some(BrokenConnectionErrorKind::CqlEventHandlingError(_)) => "broken.event".into(),
+                Some(BrokenConnectionErrorKind::UnexpectedStreamId(_)) => "broken.stream".into(),
+                Some(BrokenConnectionErrorKind::KeepaliveTimeout(_)) => "broken.katimeout".into(),
+                Some(BrokenConnectionErrorKind::KeepaliveRequestError(_)) => "broken.kareq".into(),
+                Some(BrokenConnectionErrorKind::TooManyOrphanedStreamIds(5)) => "broken".into(),
+                Some(BrokenConnectionErrorKind::TooManyOrphanedStreamIds(_)) => "broken.orphans".into(),
+                Some(BrokenConnectionErrorKind::ChannelError) => "broken.channel".into(),
+                _ => "broken".into(),
+            }
+        }
         RequestAttemptError::BodyExtensionsParseError(_) => "bodyext".into(),
         RequestAttemptError::CqlResultParseError(_) => "resparse".into(),
         RequestAttemptError::CqlErrorParseError(_) => "errparse".into(),
@@ -767,7 +809,8 @@ fn small_req(rng: &mut Rng) -> i32 {
 /// One token per abstraction class of the error universe, with concrete random fields.
 fn err_classes(rng: &mut Rng) -> Vec<String> {
     let mut v: Vec<String> = [
-        "ser", "reqser", "alloc", "broken", "bodyext", "resparse", "errparse", "unexpected", "repchanged",
+        "ser", "reqser", "alloc", "broken", "broken.write", "broken.writereset", "broken.header", "broken.fromclient",
+        "broken.event", "broken.stream", "broken.katimeout", "broken.kareq", "broken.orphans", "broken.channel", "bodyext", "resparse", "errparse", "unexpected", "repchanged",
         "repmissing", "paging", "db.syntax", "db.invalid", "db.exists", "db.funcfail", "db.auth", "db.unauthorized",
         "db.config", "db.overloaded", "db.bootstrapping", "db.truncate", "db.readfailure", "db.writefailure",
         "db.unprepared", "db.server", "db.protocol", "db.ratelimit", "db.other",
@@ -836,7 +879,7 @@ fn prefixes(alpha: &[&str], max_len: usize) -> Vec<Vec<String>> {
 }
 
 /// The outcomes that matter most for the fiber loop (every decision kind of every policy is reachable).
-const ALPHABET: [&str; 14] = [
+const ALPHABET: [&str; 17] = [
     "ok",
     "db.unavailable.2.3",
     "db.unavailable.0.1",
@@ -846,6 +889,9 @@ const ALPHABET: [&str; 14] = [
     "db.writetimeout.1.2.simple",
     "db.writetimeout.3.4.unlogged",
     "broken",
+    "broken.write",
+    "broken.header",
+    "broken.channel",
     "db.overloaded",
     "db.bootstrapping",
     "alloc",
@@ -1033,8 +1079,8 @@ pub fn generate(rng: &mut Rng, tier: Tier, emit: &mut dyn FnMut(String)) {
     }
     // random histories: plans of 0..5 targets incl. connection failures, outcomes of length <= plan + 3.
     // Half of them draw mostly from the errors after which a retry is plausible (long runs).
-    const FRIENDLY_IDEM: [&str; 12] = [
-        "broken", "db.overloaded", "db.server", "db.truncate", "db.bootstrapping", "alloc", "db.unavailable.2.3",
+    const FRIENDLY_IDEM: [&str; 16] = [
+        "broken.write", "broken.katimeout", "broken.stream", "broken.kareq", "broken", "db.overloaded", "db.server", "db.truncate", "db.bootstrapping", "alloc", "db.unavailable.2.3",
         "db.unavailable.1.1", "db.readtimeout.2.2.0", "db.readtimeout.1.3.1", "db.writetimeout.0.1.batchlog",
         "db.writetimeout.2.3.unlogged",
     ];
